@@ -158,31 +158,69 @@ def _roots_and_patterns(db, chk, m):
 
 
 def _results(db, chk, m):
-    f = m.func("CudaKernelAnalysis._generate_frequent_pattern_results")
-    srt = [c for c in ast.walk(f) if isinstance(c, ast.Call) and isinstance(c.func, ast.Attribute) and c.func.attr == "sort_values"]
-    ok = False
-    det = []
-    for c in srt:
-        kw = {k.arg: lit(k.value) for k in c.keywords}
-        det.append(kw)
-        by = kw.get("by")
-        asc = kw.get("ascending")
-        if isinstance(by, list) and by[:1] == ["count"] and (asc is False or (isinstance(asc, list) and asc[:1] == [False])):
-            # ... on every path: the sort is not under a condition
-            cur, conds = m.parent.get(id(c)), []
-            while cur is not None and cur is not f:
-                if isinstance(cur, (ast.If, ast.IfExp, ast.While, ast.For, ast.Try)):
-                    conds.append(type(cur).__name__ + (" " + ast.unparse(cur.test)[:60] if hasattr(cur, "test") else ""))
-                cur = m.parent.get(id(cur))
-            det[-1] = dict(kw, conditional_on=conds) if conds else kw
-            ok = not conds
-    chk.ob("C16.R2-result-order", "result rows are ordered by count, descending", ok, m.loc(f), found=det, accepted="sort_values(by=['count', ...], ascending=[False, ...])")
-    okc = False
-    for lp in [n for n in ast.walk(f) if isinstance(n, ast.For) and H.match("pattern_counts.items()", n.iter) is not None and isinstance(n.target, ast.Tuple) and len(n.target.elts) == 2]:
-        pv, cv = (H.name_id(e) for e in lp.target.elts)
-        okc = bool(H.find_match(f"$r['count'].append({cv})", lp)) and bool(H.find_match(f"$r['GPU kernel duration (us)'].append(pattern_durations[{pv}][0])", lp)) and \
-            bool(H.find_match(f"$r['CPU op duration (us)'].append(pattern_durations[{pv}][1])", lp))
-    chk.ob("C16.R2-result-order", "reported count / GPU / CPU durations are the accumulated values of the pattern (index 0 = GPU, 1 = CPU)", okc, m.loc(f), found=okc, accepted="count, pattern_durations[pattern][0] -> GPU, [1] -> CPU")
+    """_generate_frequent_pattern_results, evaluated: the returned table has one row per pattern of the counts dict, carrying that pattern's count and its
+    accumulated GPU / CPU durations, ordered by count descending (the overlay and the file writing are hooked)."""
+    rule = "C16.R2-result-order"
+    q = "CudaKernelAnalysis._generate_frequent_pattern_results"
+    f = m.func(q)
+    where = m.loc(f)
+    params = H.param_names(f)
+    need = ["pattern_counts", "pattern_durations", "pattern_occurrences"]
+    if not set(need) <= set(params):
+        chk.ob(rule, "_generate_frequent_pattern_results(pattern_counts, pattern_durations, pattern_occurrences, ...) recognised", None, where, found=params)
+        return
+
+    def hook(I, name, pos, kw, node):
+        if name.endswith("_overlay_frequent_patterns_with_trace"):
+            return {}
+        if name.endswith("write_raw_trace"):
+            return None
+        if name.endswith("get_sym_table"):
+            return T.P("SYMTAB")
+        return NotImplemented
+    env = {"cls": Obj("cls", cls=(m, "CudaKernelAnalysis")), "t": Obj("t", attrs={"trace_files": T.P("FILES")}), "pattern_counts": T.P("COUNTS"), "pattern_durations": T.P("DURS"),
+           "pattern_occurrences": T.P("OCC"), "rank": T.P("RANK"), "top_k": T.P("K"), "output_dir": "/o", "compress_other_kernels": True, "visualize": False}
+    if not set(params) <= set(env):
+        chk.ob(rule, "parameters of _generate_frequent_pattern_results recognised", None, where, found=sorted(set(params) - set(env)))
+        return
+    I = Interp(db, call_hook=hook)
+    runs = [r for r in I.explore(f"{CK}:{q}", lambda I: {k: v for k, v in env.items() if k in params}) if r.raised is None]
+    chk.analysed_add("functions", f"{CK}:{q}")
+    frames = [r.ret for r in runs if isinstance(r.ret, Frame)]
+    if not frames or len(frames) != len(runs):
+        chk.ob(rule, "every path returns the pattern table", None, where, found={"paths": len(runs), "frames": len(frames)})
+        return
+    ITEMS = ("call", "$COUNTS.items")
+    PAT, CNT = ("item", ("elem", ITEMS), 0), ("item", ("elem", ITEMS), 1)
+
+    def per_item(t):
+        """the value of one row as a term over the (pattern, count) item it was built from; None when the column is not one value per item of pattern_counts"""
+        while isinstance(t, tuple) and t and t[0] in ("coldata", "list") and len(t) == 2:
+            t = t[1]
+        if isinstance(t, tuple) and len(t) == 1 and isinstance(t[0], tuple) and t[0] and t[0][0] == "each":
+            return t[0][1]
+        if isinstance(t, tuple) and len(t) == 5 and t[0] == "comp" and t[1] == "list" and t[3] == ITEMS and t[4] == T.TRUE:
+            return t[2]
+        return None
+    want = {"count": CNT, "GPU kernel duration (us)": ("getitem", ("getitem", T.P("DURS"), PAT), T.C(0)), "CPU op duration (us)": ("getitem", ("getitem", T.P("DURS"), PAT), T.C(1))}
+    for R in frames[:1] if all(fr.cols == frames[0].cols and fr.order == frames[0].order for fr in frames) else frames:
+        o_ = R.order
+        okord = None
+        det = T.show_order(o_)[:200]
+        if isinstance(o_, tuple) and o_ and o_[0] == "sort":
+            _, by, asc, kind, prev = o_
+            first = per_item(by[0]) if by else None
+            asc0 = (asc[0] if isinstance(asc, (list, tuple)) else asc) if by else None
+            okord = (first == CNT and asc0 is False) if first is not None else None
+            if first is not None and first != CNT:
+                okord = False
+        elif o_ is None:
+            okord = False
+        chk.ob(rule, "result rows are ordered by count, descending", okord, where, found=det, accepted="sort_values(by=['count', ...], ascending=[False, ...])")
+        got = {c: per_item(R.col(c)) if R.has(c) else None for c in want}
+        verdict = None if any(v is None for v in got.values()) else all(got[c] == want[c] for c in want)
+        chk.ob(rule, "reported count / GPU / CPU durations are the accumulated values of the pattern (index 0 = GPU, 1 = CPU)", verdict, where,
+               found={c: T.show(v)[:80] if v is not None else "not one value per pattern" for c, v in got.items()}, accepted="count, pattern_durations[pattern][0] -> GPU, [1] -> CPU")
 
 
 def _descendants(db, chk):
